@@ -61,7 +61,7 @@ def full_digest(run):
         inv = st.inv
         if inv is None:
             continue
-        root = str(run.root)
+        root = str(run.work)
         h.update(json.dumps([list(map(str, e)) for e in inv.trace]).replace(root, "$ROOT").encode())
         h.update(inv.out.replace(root.encode(), b"$ROOT"))
         h.update(inv.err.replace(root.encode(), b"$ROOT"))
